@@ -3,12 +3,15 @@
 
   Mirrors, function by function:
     ircomp/compinstr.go  allocReg                  (register allocation, limit 255 → *CompilationPanic)
-    ircomp/compinstr.go  ProcessFillTableInstr     (index guard 0..255 → raw panic)
+    ircomp/compinstr.go  ProcessFillTableInstr     (index guard 0..255 → *CompilationPanic)
+    ircomp/compinstr.go  instrCompiler.kindex      (constant index guard ≤ 65535 → *CompilationPanic)
+    ircomp/ircomp.go     ProcessCode               (function length guard ≤ 32767 → *CompilationPanic)
     ircomp/compinstr.go  ProcessEtcLookupInstr     (index guard 0..255 → raw panic)
     ircomp/compinstr.go  ProcessTruncateCloseStackInstr (height guard 0..65535 → raw panic)
     code/opcodes.go      KIndexFromInt, Index8FromInt   — the REGENERATED definitions are used directly
     ircomp/ircomp.go     CompileQueue's recover    (only *CompilationPanic becomes an error value)
-    code/unit_builder.go EmitJump / EmitLabel      (Offset(int) conversion = truncation to int16, no check)
+    code/unit_builder.go EmitJump / EmitLabel      (Offset(int) conversion = truncation to int16; harmless
+                                                    once ProcessCode bounds the function length)
     runtime/luacont.go   LuaCont.pc int16          (pc++ and pc += offset wrap at 2^15)
   Which panic sites are "designated" (newPanic) comes from the regenerated table
   Generated.PanicSites; the predictions below are compared with the real compiler by
@@ -102,11 +105,23 @@ def truncateCloseStack (height : Int) : Except PanicValue (BitVec 32) :=
   if height < 0 ∨ height ≥ 65536 then .error (panicAt "ircomp" "instrCompiler.ProcessTruncateCloseStackInstr")
   else .ok (Opcode.ClTrunc (BitVec.ofInt 16 height))
 
-/-- ProcessLoadConstInstr / ProcessMkClosureInstr: `code.KIndexFromInt(ckidx)` (regenerated) -/
+/-- instrCompiler.kindex: `if ckidx > math.MaxUint16 { panic(newPanic("too many constants")) }`, then
+code.KIndexFromInt (regenerated) -/
+def kindex (ckidx : Int) : Except PanicValue (BitVec 16) :=
+  if ckidx > 65535 then .error (panicAt "ircomp" "instrCompiler.kindex")
+  else match Opcode.KIndexFromInt (BitVec.ofInt 64 ckidx) with
+    | .ok k => .ok k
+    | .error _ => .error (panicAt "code" "KIndexFromInt")
+
+/-- ProcessLoadConstInstr / ProcessMkClosureInstr: `code.LoadConst(dst, ic.kindex(ckidx))` -/
 def loadConst (ckidx : Int) : Except PanicValue (BitVec 32) :=
-  match Opcode.KIndexFromInt (BitVec.ofInt 64 ckidx) with
+  match kindex ckidx with
   | .ok k => .ok (Opcode.LoadConst ⟨0#8, 0#8⟩ k)
-  | .error _ => .error (panicAt "code" "KIndexFromInt")
+  | .error p => .error p
+
+/-- ConstantCompiler.ProcessCode: `if end-start > math.MaxInt16 { panic(newPanic("function too large")) }` -/
+def processCode (len : Nat) : Except PanicValue Unit :=
+  if len > 32767 then .error (panicAt "ircomp" "ConstantCompiler.ProcessCode") else .ok ()
 
 def outcomeOf {α} : Except PanicValue α → Outcome
   | .ok _ => .ok
@@ -134,20 +149,11 @@ def jumpTarget (op : BitVec 32) (fromAddr : Int) : Int :=
 /-- `pc++` on an int16 -/
 def pcNext (pc : BitVec 16) : BitVec 16 := pc + 1#16
 
-/-- the check that is MISSING from the compiler: a function's code must fit the int16 program counter -/
+/-- a function of `len` opcodes passes ProcessCode's guard -/
 def fnLenOk (len : Nat) : Bool := len ≤ 32767
 
-/-- straight-line function of `len` opcodes that executes every opcode -/
-def straightLineOutcome (len : Nat) : Option Outcome :=
-  if len ≤ 32767 then some .ok
-  else if len = 32768 then none      -- the last opcode (index 32767) may or may not advance pc
-  else some .wrongCode
-
-/-- `if false then <body> end` in a function of `len` opcodes (the jump skips almost all of it) -/
-def skippedBodyOutcome (len : Nat) : Option Outcome :=
-  if len ≤ 32767 then some .ok
-  else if len ≤ 32767 + 16 then none  -- the jump itself may still fit although the function does not
-  else some .wrongCode
+/-- outcome of compiling a function with `len` opcodes -/
+def fnLenOutcome (len : Nat) : Outcome := outcomeOf (processCode len)
 
 /-- `n` simultaneously live locals in the main chunk; the chunk itself needs a few registers more
 (continuation, _ENV), how many is not modelled: a band of 4 is left undetermined -/
@@ -162,9 +168,29 @@ def predict (kind : String) (size : Nat) : Option Outcome :=
   | "live-locals" => liveLocalsOutcome size
   | "ctor-tail" => some (tableCtorWithTail size)
   | "constants" => some (constantsOutcome size)
-  | "straight-line" => straightLineOutcome size
-  | "skipped-body" => skippedBodyOutcome size
+  | "straight-line" => some (fnLenOutcome size)
+  | "skipped-body" => some (fnLenOutcome size)
   | _ => none
+
+/-- Raw (non-designated) panic sites of ircomp/ and code/ that are accounted for.
+`guarded`: a caller's designated guard or the register bound makes them unreachable (proved in Props/C04);
+`invariant`: internal consistency checks of the compiler that do not depend on any size (label emitted
+twice, unresolved jump at a function boundary, constant queue order, an operator missing from the opcode
+maps) — not modelled, looked for by the crash search only. -/
+def rawSitesGuarded : List (String × String) := [
+  ("code", "Index8FromInt"),                                    -- ProcessFillTableInstr / ProcessEtcLookupInstr guards
+  ("code", "KIndexFromInt"),                                    -- instrCompiler.kindex guard, indices are ≥ 0
+  ("ircomp", "instrCompiler.ProcessEtcLookupInstr"),            -- index < number of live registers ≤ 255
+  ("ircomp", "instrCompiler.ProcessTruncateCloseStackInstr")]   -- height ≤ number of live registers ≤ 255
+
+def rawSitesInvariant : List (String × String) := [
+  ("code", "Builder.EmitLabel"), ("code", "Builder.Offset"),
+  ("ircomp", "ConstantCompiler.CompileQueue"),
+  ("ircomp", "instrCompiler.ProcessCombineInstr"), ("ircomp", "instrCompiler.ProcessTransformInstr")]
+
+/-- every panic site of the compile back end is designated, guarded or a size-independent invariant -/
+def sitesAccounted : Bool :=
+  PanicSites.sites.all (fun s => s.2.2.1 || (rawSitesGuarded ++ rawSitesInvariant).contains (s.1, s.2.1))
 
 def Outcome.cls : Outcome → String
   | .ok => "ok"
